@@ -46,6 +46,15 @@ def programs(tier):
                                           "label": f"calls={combo} total={total} abandon={abandon} "
                                                    f"cancel={cancel} limiter={lim} shield={shield}"})
     progs.extend(shield_inner_programs(tier))
+    for kind in ("raise_stopasync", "raise_base"):
+        progs.append({"custom": "mc.families.c14_threads:build", "calls": [kind], "total": 1,
+                      "abandon": False, "cancel": None, "limiter": "explicit",
+                      "shield_caller": False, "label": f"calls=({kind},)"})
+    progs.append({"custom": "mc.families.c14_threads:build", "calls": ["gate", "gate"],
+                  "total": 1, "abandon": False, "cancel": None, "limiter": "adapter",
+                  "shield_caller": False,
+                  "label": "calls=(gate, gate) limiter created outside the loop with total 2, "
+                           "lowered to 1 after its first use"})
     # the call that is cancelled is the one still queueing for the limiter
     for combo in (("gate", "ret"), ("gate", "gate")):
         for abandon in (False, True):
@@ -89,7 +98,14 @@ def build(world, program):
             def __getattr__(self, name):
                 return getattr(to_thread.current_default_thread_limiter(), name)
 
-        if program["limiter"] == "explicit":
+        if program["limiter"] == "adapter":
+            # created where no event loop runs, bound by a first call, total lowered afterwards
+            from ..dsl import _outside_loop
+            limiter = _outside_loop(lambda: anyio.CapacityLimiter(program["total"] + 1))
+            await to_thread.run_sync(lambda: None, limiter=limiter)
+            limiter.total_tokens = program["total"]
+            limiter_arg = limiter
+        elif program["limiter"] == "explicit":
             limiter = anyio.CapacityLimiter(program["total"])
             limiter_arg = limiter
         else:
@@ -103,13 +119,17 @@ def build(world, program):
             running["max"] = max(running["max"], running["now"])
             # (the default limiter can only be looked up from the loop thread)
             log("fn_start", i, kind, running["now"],
-                limiter.borrowed_tokens if program["limiter"] == "explicit" else None)
+                limiter.borrowed_tokens if program["limiter"] != "default" else None)
             try:
                 sched.switch()
                 if kind == "ret":
                     return ("val", i)
                 if kind == "raise":
                     raise Boom(f"T{i}")
+                if kind == "raise_stopasync":
+                    raise StopAsyncIteration(f"T{i}")  # e.g. a blocking iterator wrapped per item
+                if kind == "raise_base":
+                    raise harness.BaseBoom(f"T{i}")
                 if kind == "ret_exc":
                     return ("val", ValueError(f"returned{i}"))  # an exception *instance* as value
                 if kind == "ret_exc_bare":
@@ -255,15 +275,17 @@ def check(program, ex):
                     "check": ["val", i]}.get(kind)
         if r[0] == "ok":
             got = r[1]
-            if kind == "raise":
+            if kind in ("raise", "raise_stopasync", "raise_base"):
                 v.append(f"call {i}: function raised but run_sync returned {got}")
             elif _norm(got) != _norm(expected):
                 v.append(f"call {i} ({kind}): run_sync returned {got}, function returned {expected}")
         else:
             out = r[0]
             if out[0] == "boom":
-                if kind != "raise" or out[1] != f"T{i}":
+                if kind not in ("raise", "raise_base") or out[1] != f"T{i}":
                     v.append(f"call {i} ({kind}) raised foreign exception {out}")
+            elif kind == "raise_stopasync" and out == ["exc", "StopAsyncIteration"]:
+                pass
             elif out[0] == "cancel":
                 if program.get("shield_inner"):
                     v.append(f"call {i}: run_sync inside a shielded scope ended with a "
